@@ -54,6 +54,15 @@ type LItem struct {
 	Small *int8
 }
 
+// LOrder lives in a table whose name, column names and values are words that also occur in error-handling
+// code ("closed", "timeout", "EOF" ...): decode errors quote all three.
+type LOrder struct {
+	Id       int64  `sql:",primary"`
+	ClosedAt *int64 `sql:"closed_at"`
+	State    string
+	Timeout  int32
+}
+
 // ColMeta is the MySQL side of one struct column.
 type ColMeta struct {
 	Name     string
@@ -94,6 +103,12 @@ var Catalogue = []*TableDef{
 		{Name: "flag", Type: fakesql.Bool, Width: 8, Nullable: true},
 		{Name: "count", Type: fakesql.Int, Width: 32, Nullable: true},
 		{Name: "small", Type: fakesql.Int, Width: 8, Nullable: true},
+	}},
+	{Name: "closed_orders", Zero: LOrder{}, Cols: []ColMeta{
+		{Name: "id", Type: fakesql.Int, Width: 64, Primary: true},
+		{Name: "closed_at", Type: fakesql.Int, Width: 64, Nullable: true},
+		{Name: "state", Type: fakesql.Text, Varchar: true},
+		{Name: "timeout", Type: fakesql.Int, Width: 32},
 	}},
 }
 
